@@ -393,7 +393,7 @@ func bookThroughFind(c *harness.Check) []string {
 
 func checkC20(c *harness.Check) {
 	mustAnchors(c)
-	c.Rule = "every node WITH ITS HISTORY of push-sequence walks from all seeds (the heuristics read last moves, castled flags, moved pieces, move number) plus every K+X v K placement (quick: white king in the a1-d1-d4 triangle) and the back-rank-check family (boxed king checked by a rook from every square, one own piece on every square: many positions with a single legal reply): all evaluations finite without panic; generic material / TUROCHAMP / TUROCHAMP material / BERNSTEIN (factor 20,1,0) equal on the colour-mirrored twin game; FindPlausibleMoves legal with exact metadata and duplicate-free; PlausibleMoveTable{1,3,7} selects <= limit and >= 1; SkipUnderPromotions keeps exactly the non-under-promotions and >= 1; ConsiderableMovesOnly (evaluated post-move like the search) equals the four rules read on the reference model; every entry of both opening books (private map read by reflection) legal in its keyed position and returned by Find; through the public face: whatever Find returns on any position within 4-5 plies of the start, and on the same placement with the other side to move (bundled books) / reachable by any move order over an opening alphabet with e.p. captures and transpositions (generic NewBook built from all lines of <= 5 moves; the query walk also takes single pawn steps, which reach book placements without their e.p. target) is legal in that position. Plus mobility extremes: a white queen / rook / bishop on every square of an otherwise empty board, every subset of its rays ending in a black knight / rook / bishop on the last square (a queen in the centre: 27 moves, up to 8 of them captures), kings placed legally, both sides to move and colour-mirrored. distinct_nontrivial = distinct (seed, selected-plausible-count at limit 7, #considerable, in-check) classes + book entries"
+	c.Rule = "every node WITH ITS HISTORY of push-sequence walks from all seeds (the heuristics read last moves, castled flags, moved pieces, move number) plus every K+X v K placement (quick: white king in the a1-d1-d4 triangle) and the back-rank-check family (boxed king checked by a rook from every square, one own piece on every square: many positions with a single legal reply): all evaluations finite without panic; generic material / TUROCHAMP / TUROCHAMP material / BERNSTEIN (factor 20,1,0) equal on the colour-mirrored twin game; FindPlausibleMoves legal with exact metadata and duplicate-free; PlausibleMoveTable{1,3,7} selects <= limit and >= 1; SkipUnderPromotions keeps exactly the non-under-promotions and >= 1; ConsiderableMovesOnly (evaluated post-move like the search) equals the four rules read on the reference model; every entry of both opening books (private map read by reflection) legal in its keyed position and returned by Find; through the public face: whatever Find returns on any position within 4-5 plies of the start, and on the same placement with the other side to move (bundled books) / reachable by any move order over an opening alphabet with e.p. captures and transpositions (generic NewBook built from all lines of <= 5 moves; the query walk also takes single pawn steps, which reach book placements without their e.p. target) is legal in that position. Plus the en-passant family (e.p. x king x slider, incl. positions whose only legal move is the en-passant capture). Plus mobility extremes: a white queen / rook / bishop on every square of an otherwise empty board, every subset of its rays ending in a black knight / rook / bishop on the last square (a queen in the centre: 27 moves, up to 8 of them captures), kings placed legally, both sides to move and colour-mirrored. distinct_nontrivial = distinct (seed, selected-plausible-count at limit 7, #considerable, in-check) classes + book entries"
 	for _, m := range bookOracle(c) {
 		c.Violation("C20/book "+m, m, "C20/book", nil)
 	}
@@ -515,6 +515,26 @@ func checkC20(c *harness.Check) {
 		}
 		c.Distinct(fmt.Sprint("backrank", len(n.Ref.Legal())))
 	}, nil)
+	// en passant around a king and a slider (the capture that is the only legal move, the capture that
+	// is illegal because of a pin along the rank, ...): filters that treat en passant apart meet it here
+	var nEP, nEPLegal atomic.Int64
+	WalkFlat(c, func(e func(*ref.Pos)) { corpus.EnPassantFamily(false, e) }, func(n *Node) {
+		if n.Ref.KingSq(true) < 0 || n.Ref.KingSq(false) < 0 {
+			return // (the family also serves move generation with one king only: not a legal position)
+		}
+		nEPLegal.Add(1)
+		if !c.Thorough() && nEP.Add(1)%3 != 0 && len(n.Ref.Legal()) > 2 {
+			return // quick: every third position, and every position with at most two legal moves
+		}
+		f := n.Ref.FEN(0, 1)
+		b := bridge.NewBoard(f, 0)
+		bm := bridge.NewBoard(mirrorPos(n.Ref).FEN(0, 1), 0)
+		c.Evaluations.Add(1)
+		if cls, msg := c20Oracle(ctx, b, bm, ref.NewGame(n.Ref, 0, 1), nil); msg != "" {
+			c.Violation(cc.sig("C20/"+cls, f), msg+" at "+f, "C20/node", map[string]any{"FEN": f, "Moves": []string{}})
+		}
+	}, nil)
+	c.SetExtra("en_passant_family_positions_with_both_kings", nEPLegal.Load())
 	// one piece with as many moves and captures as the board allows (tables and bounds indexed by a
 	// number of moves meet their extremes here)
 	var nExt atomic.Int64
